@@ -7,7 +7,12 @@ C: on generic-position scenes the cost of the implementation's displayRoute equa
 segment penalty 0 against the unrestricted visibility graph, penalties 1 and 10 against the taut class.
 A second stream ("shared") routes several connectors whose endpoints coincide exactly and then moves / adds / resizes shapes in later
 transactions (history generator of checks/c06.py): after every processTransaction every route must still cost the model optimum of
-the scene of that moment (Lee's rotational sweep keeps the swept vertices in a std::set ordered by angle, distance and VertID)."""
+the scene of that moment (Lee's rotational sweep keeps the swept vertices in a std::set ordered by angle, distance and VertID).
+Large penalties (100, 400, 1000; scenes at scales 1, 4 and 12, so that bend count dominates or trades off against length) are compared against the
+taut class as well, and a directed family "corner reachable both ways round its obstacle" (avoid_lib.gen_corner_scene) keeps exactly the scenes on which
+the extracted (previous vertex, vertex) search and the extracted vertex-only search (Avoid/RefRouterVertexOnlyModel.v, taut_select) have different optima:
+there the cheapest arrival at a corner is not the one the optimal route uses, so ANode's previous-vertex component carries information (seeded change C04-4:
+PENDING lookup by vertex alone).  corpus/c04_pending_lookup.json (the seeded demonstration scene + selected scenes) is run first."""
 import os, json, hashlib, math
 from vlib import common as C
 from checks import avoid_lib as A
@@ -18,6 +23,12 @@ TOL = 1e-6
 
 # (name, segmentPenalty, buffer, rect_only)
 CONFIGS = [('pen0', 0, 0, False), ('pen1', 1, 0, False), ('pen10', 10, 0, False), ('pen0-buf2-rect', 0, 2, True), ('pen10-buf3-rect', 10, 3, True)]
+# large penalties (name, segmentPenalty): the generic scenes multiplied by a random scale of LARGE_SCALES - at scale 1 (arena 40) the bend count alone
+# decides, at scale 12 (arena 480) length and bends trade off
+LARGE_CONFIGS = [('pen100', 100), ('pen400', 400), ('pen1000', 1000)]
+LARGE_SCALES = [1, 1, 4, 12]
+# directed family "corner reachable both ways round its obstacle": penalties offered to the selector
+CORNER_PENS = [30, 100, 400, 1000]
 
 
 def vbp_grid(res, drv, G, stats):
@@ -65,7 +76,7 @@ def run_cases(res, exe, drv, cases, stats, samples, mism):
             q.append(A.q_chk(c['polys'], s, t, route))
             q.append(A.q_plain(rpolys, s, t) if c['pen'] == 0 else A.q_taut(c['pen'], rpolys, s, t))
             meta.append((c, s, t, route, rpolys))
-    ans = A.run_driver(drv, q)
+    ans = A.run_driver_parallel(drv, q)
     for k, (c, s, t, route, rpolys) in enumerate(meta):
         chk, mod = ans[2 * k], A.parse_route_answer(ans[2 * k + 1])
         stats['routes'] += 1
@@ -95,6 +106,20 @@ def run_cases(res, exe, drv, cases, stats, samples, mism):
         stats['bends_hist'][bends] = stats['bends_hist'].get(bends, 0) + 1
         if bends > 0:
             stats['nontrivial'].add(hashlib.sha256(repr((c['cfg'], c['polys'], s, t)).encode()).hexdigest())
+        if 'sel' in c:
+            # selected scene: taut_select's (previous vertex, vertex) search must be route_taut's search (same functions over shared tables)
+            if c['sel'][0] != mod[0]:
+                res.violation(dict(base, what='selector inconsistent: taut_select reports a different optimum than route_taut on the same scene',
+                                   taut_select_pico=c['sel'][0], route_taut_pico=mod[0]), no_input=True)
+                continue
+            base['vertex_only_search_cost'] = None if c['sel'][1] is None else c['sel'][1] / A.PICO
+            base['family'] = ('the optimum needs an arrival at a corner that is NOT the cheapest arrival at that corner: the extracted search with one label per '
+                              'vertex (route_taut_vertex_only) gives %s, the (previous vertex, vertex) search gives %.6f' %
+                              ('no route' if c['sel'][1] is None else '%.6f' % (c['sel'][1] / A.PICO), mcost))
+            if c['sel'][1] is not None and abs(cost - c['sel'][1] / A.PICO) <= TOL and abs(cost - mcost) > TOL:
+                stats['corner_impl_equals_vertex_only'] = stats.get('corner_impl_equals_vertex_only', 0) + 1
+                base['diagnosis'] = ('the implementation returned exactly the optimum of the vertex-only search: its A* lost the dearer arrival at a corner '
+                                     '(ANode is keyed by (vertex, previous vertex); look at the PENDING / DONE lookups in AStarPathPrivate::search)')
         if len(samples) < 4 and bends >= 2 and c['cfg'] not in [x['config'] for x in samples]:
             samples.append(dict(config=c['cfg'], shapes=c['polys'], src=s, dst=t, displayRoute=route, implementation_cost=cost,
                                 model_optimum=mcost, model_route=[[float(x), float(y)] for x, y in mod[1]]))
@@ -203,6 +228,53 @@ def run_histories(res, exe, drv, hists, stats, mism):
                              implementation_cost=cost, bends=bends, model_optimum=mcost, model_route=[[float(x), float(y)] for x, y in mod[1]]))
 
 
+def corpus_cases(drv):
+    p = os.path.join(C.VERIF, 'corpus', 'c04_pending_lookup.json')
+    out = []
+    if os.path.exists(p):
+        for k, e in enumerate(json.load(open(p))['scenes']):
+            polys = [[tuple(q) for q in P] for P in e['shapes']]
+            conns = [(tuple(e['src']), tuple(e['dst']))]
+            out.append({'cfg': 'corpus:c04_pending_lookup#%d' % k, 'pen': e['segmentPenalty'], 'buf': 0, 'polys': polys, 'conns': conns,
+                        'script': A.scene_script(polys, conns, 0, e['segmentPenalty'], 0, 0, 1)})
+        # the selector's two optima, for the diagnosis text of a failing entry
+        pos = [c for c in out if c['pen'] > 0]
+        for c, a in zip(pos, A.run_driver(drv, [A.q_sel([c['pen']], c['polys'], c['conns'][0][0], c['conns'][0][1]) for c in pos])):
+            cp, cv = A.parse_sel(a)[0]
+            if cp is not None and cp != cv:
+                c['sel'] = (cp, cv)
+    return out
+
+
+def corner_cases(rng, drv, ncand, cases, stats):
+    """directed family "corner reachable both ways round its obstacle": ncand scenes built by avoid_lib.gen_corner_scene; one case per (scene, penalty)
+    for which the extracted taut_select reports different optima for the (previous vertex, vertex) search and the vertex-only search"""
+    scenes = []
+    tries = 0
+    while len(scenes) < ncand and tries < 40 * ncand:
+        tries += 1
+        sc = A.gen_corner_scene(rng)
+        if sc is not None:
+            scenes.append(sc)
+    ans = A.run_driver_parallel(drv, [A.q_sel(CORNER_PENS, polys, conns[0][0], conns[0][1]) for polys, conns in scenes])
+    fam = stats.setdefault('corner_family', {'candidates_built': 0, 'scenes_selected': 0, 'cases_by_penalty': {}, 'selected_by_vertices_of_T': {},
+                                              'vertex_only_search_finds_no_route': 0})
+    fam['candidates_built'] += len(scenes)
+    for (polys, conns), a in zip(scenes, ans):
+        hit = False
+        for pen, (cp, cv) in zip(CORNER_PENS, A.parse_sel(a)):
+            if cp is not None and cp != cv:
+                hit = True
+                fam['cases_by_penalty'][str(pen)] = fam['cases_by_penalty'].get(str(pen), 0) + 1
+                fam['vertex_only_search_finds_no_route'] += 1 if cv is None else 0
+                cases.append({'cfg': 'corner-pen%d' % pen, 'pen': pen, 'buf': 0, 'polys': polys, 'conns': conns, 'sel': (cp, cv),
+                              'script': A.scene_script(polys, conns, 0, pen, 0, 0, 1)})
+        if hit:
+            fam['scenes_selected'] += 1
+            k = str(len(polys[0]))
+            fam['selected_by_vertices_of_T'][k] = fam['selected_by_vertices_of_T'].get(k, 0) + 1
+
+
 def run(tier):
     res = C.Result(PID, tier, 'proof')
     info = C.prove(res, PID, gen_modules=['Geometry'])
@@ -222,6 +294,23 @@ def run(tier):
     vbp_ok = vbp_grid(res, drv, 3 if tier == 'quick' else 4, stats)
     n_per = 45 if tier == 'quick' else 300
     samples, mism, cases = [], [], []
+    # corpus first
+    cc = corpus_cases(drv)
+    stats['corpus'] = len(cc)
+    run_cases(res, exe, drv, cc, stats, samples, mism)
+    # directed family: candidates by construction, selected with the extracted model
+    rng2 = C.SplitMix64(C.get_seed() ^ 0xC04C04)       # own stream: the older families keep their scenes per seed
+    corner_cases(rng2.fork(), drv, 1000 if tier == 'quick' else 8000, cases, stats)
+    n_large = 30 if tier == 'quick' else 300
+    for (name, pen) in LARGE_CONFIGS:
+        for _ in range(n_large):
+            polys, conns = A.gen_scene(rng2, nmax=8, R=40, gap=1)
+            k = rng2.choice(LARGE_SCALES)
+            polys = [[(x * k, y * k) for x, y in P] for P in polys]
+            conns = [((s[0] * k, s[1] * k), (d[0] * k, d[1] * k)) for s, d in conns]
+            if conns:
+                cases.append({'cfg': '%s-x%d' % (name, k), 'pen': pen, 'buf': 0, 'polys': polys, 'conns': conns,
+                              'script': A.scene_script(polys, conns, 0, pen, 0, 0, 1)})
     for (name, pen, buf, ro) in CONFIGS:
         for _ in range(n_per):
             polys, conns = A.gen_scene(rng, nmax=8, R=40, gap=1, buf=buf, rect_only=ro)
@@ -239,18 +328,29 @@ def run(tier):
             hists.append({'cfg': name, 'pen': pen, 'trans': trans, 'ops': ops})
     for i in range(0, len(hists), 100):
         run_histories(res, exe, drv, hists[i:i + 100], stats, mism)
-    for m in mism[:5]:
+    # report at most 5 mismatches, one per family (config without scale / corpus index) first
+    fam_of = lambda m: m['config'].split('#')[0].split('-x')[0]
+    first, rest, seen = [], [], set()
+    for m in mism:
+        (rest if fam_of(m) in seen else first).append(m)
+        seen.add(fam_of(m))
+    for m in (first + rest)[:5]:
         res.violation(m)
     res.cov.update({
         'evaluations': stats['routes'] + stats.get('vbp_in_domain', 0),
         'distinct_nontrivial': len(stats['nontrivial']),
         'rule': 'one evaluation = one polyline connector routed by Avoid::Router and its displayRoute cost (length + penalty * bends) compared '
                 'with the extracted reference router\'s optimum (1e-6), plus every in-domain tuple of the validateBendPoint grid; scenes: 1-8 '
-                'convex integer polygons, boxes separated by >= 1 (+ 2*buffer), endpoints in free space; non-trivial = distinct '
+                'convex integer polygons, boxes separated by >= 1 (+ 2*buffer), endpoints in free space (corner family: 2-5 convex polygons at mutual distance >= 1, '
+                'selected by the model); penalties 0, 1, 10, 30, 100, 400, 1000; non-trivial = distinct '
                 '(config, scene, connector) whose route has at least one bend',
         'samples': samples, 'traces_validated_against_impl': stats['routes'],
         'routes_by_config': stats['by_config'], 'bends_histogram': {str(k): v for k, v in sorted(stats['bends_hist'].items())},
-        'cost_mismatches': stats['mismatch'], 'no_path': stats['no_path'],
+        'cost_mismatches': stats['mismatch'], 'no_path': stats['no_path'], 'corpus_scenes': stats.get('corpus', 0),
+        'corner_family': dict(stats.get('corner_family', {}), what='directed family "corner reachable both ways round its obstacle" (avoid_lib.gen_corner_scene): '
+                              'kept = (scene, penalty) pairs on which the extracted taut_select gives different optima for the (previous vertex, vertex) search '
+                              'and the vertex-only search; every kept case is routed by the implementation and compared with route_taut',
+                              implementation_equal_to_vertex_only_optimum=stats.get('corner_impl_equals_vertex_only', 0)),
         'known_selective_reroute_not_flagged_cases': stats.get('known_reroute_silent', 0),
         'shared_endpoint_stream': {'what': '2-4 polyline connectors most of which share an endpoint position exactly (some endpoints exactly on shape vertices), dense scenes, then shape moves / adds / '
                                            'resizes / deletes and endpoint moves (also onto another connector\'s endpoint) over several transactions; cost vs '
